@@ -27,12 +27,18 @@ void module_constructor(const char name[])
     sim_note("EV ctor-end %s", name);
 }
 
+/* Both hooks are optional for a module (src/module.c looks them up with dlsym): the variants built with
+ * -DSTUB_NO_POSTINIT / -DSTUB_NO_DTOR do not export them. */
+#ifndef STUB_NO_POSTINIT
 void module_post_init(struct module *self)
 {
     sim_note("EV postinit %s %s", myname, module_get_name(self));
 }
+#endif
 
+#ifndef STUB_NO_DTOR
 void module_destructor(void)
 {
     sim_note("EV dtor %s", myname);
 }
+#endif
